@@ -786,10 +786,13 @@ pub fn run(task: &str) -> Option<EvalResult> {
     match task {
         "trusted_paths_ground" => Some(trusted_paths_ground()),
         "sig_paths_ground" => Some(sig_paths_ground()),
-        "relations_ground" => Some(crate::relations::relations_ground()),
-        "builders_ground" => Some(crate::builders::builders_ground()),
+        "relations_ground" => Some(crate::relations::relations_ground(false)),
+        "relations_ground:thorough" => Some(crate::relations::relations_ground(true)),
+        "builders_ground" => Some(crate::builders::builders_ground(false)),
+        "builders_ground:thorough" => Some(crate::builders::builders_ground(true)),
         "paths_ground" => Some(crate::paths::paths_ground()),
-        "merkle_ground" => Some(crate::merkle::merkle_ground()),
+        "merkle_ground" => Some(crate::merkle::merkle_ground(false)),
+        "merkle_ground:thorough" => Some(crate::merkle::merkle_ground(true)),
         "pos_v2_hash" => Some(pos_v2_hash()),
         "datalayer_ground" => Some(datalayer_ground()),
         "bls_cache_ground" => Some(bls_cache_ground()),
